@@ -170,8 +170,8 @@ def run(ctx):
             "INVARIANT NaiveIsOne\nINVARIANT PerfectIsZero\n" % (5 if thorough else 4))
     ctx.add_mc("TsMape", tlc.run("TsMape", mcfg, workers=8))
     n = s2c(ctx, consts)
-    c2s_frames(ctx, 2500 if thorough else 300, 60 if thorough else 40)
-    c2s_mape(ctx, 4000 if thorough else 500)
+    c2s_frames(ctx, 8000 if thorough else 300, 80 if thorough else 40)
+    c2s_mape(ctx, 12000 if thorough else 500)
     ctx.exhaustive = True
     ctx.rule = ("S2C: every configuration (n<=%d, past<=%d, delay2<=%d, ncol<=%d, weights, same_rows) of the "
                 "model-checked TsFrame state space with NRow>=1 is replayed on build_ts_X_y with the symbolic "
